@@ -268,6 +268,10 @@ fn op_case(ctx: &mut Ctx, d: Drv, offered: u64, opc: u128, arg: u128) {
     let Some((mut b, dev)) = model_case(ctx, &c) else { return };
     dev.borrow_mut().serve = true;
     let mut qidx: Option<u16> = None;
+    // buffers of requests left outstanding by operations 12 / 13 must outlive the driver's use of them
+    let mut held_tx: Option<Vec<u8>> = None;
+    let mut held_blk: Vec<(virtio_drivers::device::blk::BlkReq, Vec<u8>, virtio_drivers::device::blk::BlkResp)> =
+        (0..6).map(|_| (virtio_drivers::device::blk::BlkReq::default(), vec![0u8; 512], virtio_drivers::device::blk::BlkResp::default())).collect();
     let r: std::thread::Result<Result<u128, Error>> = catch_unwind(AssertUnwindSafe(|| -> Result<u128, Error> {
         Ok(match (&mut *b, opc) {
             (Built::Blk(x), 1) => x.readonly() as u128,
@@ -285,6 +289,17 @@ fn op_case(ctx: &mut Ctx, d: Drv, offered: u64, opc: u128, arg: u128) {
             (Built::Net8(x), 7) => { qidx = Some(1); x.send(TxBuffer::from(&vec![0xabu8; arg as usize]))?; 0 }
             (Built::Net32(x), 7) => { qidx = Some(1); x.send(TxBuffer::from(&vec![0xabu8; arg as usize]))?; 0 }
             (Built::Rng(x), 8) => { qidx = Some(0); x.request_entropy(&mut vec![0xffu8; arg as usize])? as u128 }
+            // a transmit buffer of `arg` bytes: accepted exactly when it can hold the header of the negotiated form
+            (Built::NetRaw2(x), 12) => { let b = vec![0u8; arg as usize]; unsafe { x.transmit_begin(&b)?; } held_tx = Some(b); 0 }
+            (Built::NetRaw8(x), 12) => { let b = vec![0u8; arg as usize]; unsafe { x.transmit_begin(&b)?; } held_tx = Some(b); 0 }
+            (Built::NetRaw32(x), 12) => { let b = vec![0u8; arg as usize]; unsafe { x.transmit_begin(&b)?; } held_tx = Some(b); 0 }
+            // six outstanding non-blocking reads on the 16-entry queue: without indirect descriptors the sixth does not fit
+            // and must be refused, never squeezed through an indirect table
+            (Built::Blk(x), 13) => {
+                let mut last = Ok(0u16);
+                for k in 0..6usize { let (rq, bf, rs) = &mut held_blk[k]; last = unsafe { x.read_blocks_nb(k, rq, bf, rs) }; if last.is_err() { break; } }
+                dev.borrow_mut().service(0);
+                last?; 0 }
             (Built::Gpu(x), 9) => { qidx = Some(0); x.edid_preferred_resolution()?; 0 }
             (Built::Gpu(x), 10) => { qidx = Some(0); x.edid_supported_resolutions()?; 0 }
             // the device completes one receive buffer; the frame is found behind a header of the negotiated form
@@ -297,7 +312,7 @@ fn op_case(ctx: &mut Ctx, d: Drv, offered: u64, opc: u128, arg: u128) {
     let rec = drivers::take_records();
     let res: [u128; 2] = match &r { Ok(Ok(v)) => [0, *v], Ok(Err(e)) => [1, err_code(e)], Err(_) => [2, 0] };
     // op 11: the events of the receive path belong to C16; only the header form is looked at here
-    let ev = if opc == 11 { drivers::enc_events(&Records { log: vec![], qnew: vec![], ap_alloc: vec![], ap_share: vec![] }) } else { drivers::enc_events(&rec) };
+    let ev = if opc >= 11 { drivers::enc_events(&Records { log: vec![], qnew: vec![], ap_alloc: vec![], ap_share: vec![] }) } else { drivers::enc_events(&rec) };
     let (ue, si) = { let dv = dev.borrow(); (qidx.map(|q| dv.used_event(q)).unwrap_or(0) as u128, dv.saw_indirect as u128) };
     let mut ins = vec![d.code(), offered as u128, 0, opc, arg, c.cfg.len() as u128];
     ins.extend(c.cfg.iter().map(|x| *x as u128));
@@ -305,17 +320,19 @@ fn op_case(ctx: &mut Ctx, d: Drv, offered: u64, opc: u128, arg: u128) {
     ctx.tr.line(820, &ins, &outs);
     let mut m = vec![d.code(), offered as u128, opc, res[0], res[1], si, ue]; m.extend(&ev);
     ctx.tr.line(853, &m, &[1]);
+    if opc == 12 { ctx.tr.line(855, &[d.code(), offered as u128, arg, res[0]], &[1]); }
     ctx.tr.note(&format!("op_{}", opc));
     if si == 1 { ctx.tr.note("device_saw_indirect"); }
     if ue != 0 { ctx.tr.note("used_event_written"); }
     dev.borrow_mut().serve = false;
     drop_built(b);
+    drop(held_tx); drop(held_blk);
 }
 
 fn ops_of(d: Drv) -> Vec<(u128, u128)> {
     match d {
-        Drv::Blk => vec![(1, 0), (2, 0)], Drv::Console => vec![(3, 0), (4, 0x41)], Drv::Gpu => vec![(5, 0), (9, 0), (10, 0)],
-        Drv::NetRaw => vec![(6, 0), (7, 60), (7, 0), (7, 1), (7, 1514)], Drv::Net => vec![(7, 61), (7, 0), (7, 1), (11, 0)], Drv::Rng => vec![(8, 16)], _ => vec![],
+        Drv::Blk => vec![(1, 0), (2, 0), (13, 0)], Drv::Console => vec![(3, 0), (4, 0x41)], Drv::Gpu => vec![(5, 0), (9, 0), (10, 0)],
+        Drv::NetRaw => vec![(6, 0), (7, 60), (7, 0), (7, 1), (7, 1514), (12, 0), (12, 9), (12, 10), (12, 11), (12, 12), (12, 13), (12, 74)], Drv::Net => vec![(7, 61), (7, 0), (7, 1), (11, 0)], Drv::Rng => vec![(8, 16)], _ => vec![],
     }
 }
 
